@@ -213,12 +213,10 @@ order (so, with `C11_last_wins`, a later source overrides an earlier one). -/
 theorem C11_order (c : Call) (hthrow : c.throwing = false) (st : St)
     (srcEnv srcArg : List (Bytes × List (Item × Bytes)))
     (hE : envSources c = srcEnv.map (fun x => x.1 ++ renderAll x.2))
-    (hEwf : ∀ x ∈ srcEnv, Blank x.1 ∧
-      ItemsWF { table := c.table, noEcho := c.noEcho, cmdLine := c.cmdLineFlag, throwing := c.throwing } x.2)
+    (hEwf : ∀ x ∈ srcEnv, Blank x.1 ∧ ItemsWF c.cfgEnv x.2)
     (hA : c.argv.getD [] = srcArg.map (fun x => x.1 ++ renderAll x.2))
-    (hAwf : ∀ x ∈ srcArg, Blank x.1 ∧
-      ItemsWF { table := c.table, noEcho := c.noEcho, cmdLine := true, throwing := c.throwing } x.2) :
-    parseOptions c st = (.ok, applyAll { table := c.table, noEcho := c.noEcho, cmdLine := true, throwing := c.throwing }
+    (hAwf : ∀ x ∈ srcArg, Blank x.1 ∧ ItemsWF c.cfgArg x.2) :
+    parseOptions c st = (.ok, applyAll c.cfgArg
       ((srcEnv.map (·.2)).flatten ++ (srcArg.map (·.2)).flatten) { st with errs := [] }) := by
   unfold parseOptions
   simp only [hE, hA]
@@ -315,10 +313,12 @@ theorem C11_in_bounds (buf : Bytes) (hn : NoNul buf) :
 
 /-- On the list model every outcome other than normal termination is an exception of the C++
 code (there is no over-read outcome any more): `parseStr` is total and returns one of
-ok / logic_error / mp::Error / InvalidOptionValue for every byte string. -/
+ok / logic_error / mp::Error / InvalidOptionValue (or the model's own bound on the nesting of
+option files, `tooDeep`, which only an option file can produce) for every byte string. -/
 theorem C11_outcomes (cfg : Cfg) (s : Bytes) (st : St) :
     (parseStr cfg s st).1 = .ok ∨ (parseStr cfg s st).1 = .threwLogic ∨
-    (parseStr cfg s st).1 = .threwError ∨ (parseStr cfg s st).1 = .threwInvalid := by
+    (parseStr cfg s st).1 = .threwError ∨ (parseStr cfg s st).1 = .threwInvalid ∨
+    (parseStr cfg s st).1 = .tooDeep := by
   cases (parseStr cfg s st).1 <;> simp
 
 /-- An unterminated quoted value (the former failing input class) now takes the rest of the
